@@ -24,6 +24,7 @@ class ReadNonblockingIface(Contract):
         dt = v.draw(T.Real, 'dt')
         v.dt = dt
         v.g['clk'] = v.g['clk'] + dt
+        v.g['nreads'] = v.g.get('nreads', 0) + 1
         if v.raised is None:
             v.g['R'] = cat(v.g['R'], v.result)
 
@@ -62,6 +63,7 @@ def api_spawn(b):
     sp, kind = spawn_shape(b, name='self', loop=True, defaults=True)
     b.ghost('R', b'' if (kind == 'b' and hasattr(b, 'source')) else '')
     b.ghost('clk', b.real('clk0'))
+    b.ghost('nreads', 0)
     return sp, kind
 
 
